@@ -48,6 +48,9 @@ func buildFilter(cfg encCfg) *encrypt.Filter {
 			f.FilterOperationOverrides[encrypt.DataClassification(k)] = encrypt.FilterOperation(v)
 		}
 	}
+	if cfg.Ignore {
+		f.IgnoreTypes = []reflect.Type{tIgnPtr}
+	}
 	switch cfg.Wrapper {
 	case "present":
 		f.Wrapper = cryp.NewWrapper(baseKey, "base")
@@ -66,6 +69,7 @@ func genCfgEnc(r *rt.Rand) encCfg {
 		c.Wrapper = "failing"
 		c.FailAt = r.Range(1, 4)
 	}
+	c.Ignore = r.Intn(4) == 0
 	if r.Intn(3) > 0 {
 		c.Overrides = map[string]string{}
 		opsv := []string{"", "redact", "encrypt", "hmac-sha256", "bogus"}
